@@ -23,7 +23,7 @@ def run(c):
     os.makedirs(d, exist_ok=True)
     c.cov["bounds"] = {"listing_texts": "3 lines x 2 chars over {x, e-acute, space}" + ("" if q else "; 3 x 3 over 5 characters incl. 3- and 4-byte"),
                        "scoping_faults": "every use / binder of every syntax tree <= 5 nodes", "type_faults": "every site of every well-typed program <= %d nodes + corpus" % (5 if q else 6)}
-    runs = [("list-3x2", list_cfg(3, 2, "CharsQ")), ("list-2x3", list_cfg(2, 3, "CharsQ"))] + ([] if q else [("list-2x3-wide", list_cfg(2, 3, "CharsT"))])
+    runs = [("list-3x2", list_cfg(3, 2, "CharsQ")), ("list-2x3", list_cfg(2, 3, "CharsQ")), ("list-2x3-wideblank", list_cfg(2, 3, "CharsW"))] + ([] if q else [("list-2x3-wide", list_cfg(2, 3, "CharsT"))])
     for name, cfg in runs:
         st = vf.tlc_generate("MC_Listing", cfg, name, timeout=6000, workers=14)
         c.add_tlc(st, "all texts and ranges with the prescribed excerpt (%s); generation" % name)
